@@ -2079,6 +2079,13 @@ Queue<ItemType>::SwapContentsAux(Queue<ItemType> & largeThat)  // note:  can't b
    MASSERT((ni <= ARRAYITEMS(largeThat._smallQueue)), "Queue::SwapContentsAux():  ni is too large");  // only here to reassure Coverity and myself
    for (uint32 i=0; i<ni; i++) largeThat._smallQueue[i] = QQ_PlunderItem((*this)[i]);
 
+   // Our own small-buffer is about to go out of use, so make sure no stale items are left behind in it
+   if (IsPerItemClearNecessary())
+   {
+      const ItemType & defaultItem = GetDefaultItem();
+      for (uint32 i=0; i<ARRAYITEMS(_smallQueue); i++) _smallQueue[i] = defaultItem;
+   }
+
    // Now adopt his dynamic buffer
    _queue     = largeThat._queue;
    _queueSize = largeThat._queueSize;
